@@ -182,7 +182,7 @@ class Program:
             except Exception as e2:
                 plain = "raised:" + type(e2).__name__
         self.flush_events()
-        rec = {"op": name, "exc": exc, "plain": plain, "conflict_possible": any(a[c].dtype.kind in "if" and dict(view(a)["units"]).get(str(c)) != "zz" for c in cols), "warned": any("Unable to establish table metadata" in x for x in wrn),
+        rec = {"op": name, "exc": exc, "plain": plain, "conflict_possible": any(a[c].dtype.kind in "if" and dict(view(a)["units"]).get(str(c)) != "zz" for c in cols), "warned": bool(wrn),   # any warning counts: the wording is the library's business
                "is_table": isinstance(res, TableDataFrame) and hasattr(res, "_table_data"),
                "src_a": keys[op["a"] % len(keys)], "src_b": keys[op["b"] % len(keys)], "before": before}
         if rec["is_table"]:
